@@ -133,7 +133,7 @@ def coq_error_for(vfile, buildlog):
 BANNED = re.compile(r'\b(Admitted|admit|Axiom|Parameter|Conjecture|Unset\s+Guard|bypass_check|Admit\s+Obligations)\b')
 def banned_tokens():
     bad = []
-    for v in glob.glob(os.path.join(COQ, '*.v')):
+    for v in glob.glob(os.path.join(COQ, '*.v')) + glob.glob(os.path.join(COQ, 'Generated', '*.v')):
         txt = re.sub(r'\(\*.*?\*\)', '', open(v).read(), flags=re.S)
         for m in BANNED.finditer(txt):
             bad.append('%s: %s' % (os.path.basename(v), m.group(0)))
@@ -316,6 +316,10 @@ def proof_status(ctx, prop_files):
             obligations.append({'theorem': name, 'file': pf, 'kind': kind, 'discharged': bool(good)})
         if not ok:
             broken.append({'file': pf, 'line': err[0], 'error': err[1]})
+    # the development must not declare axioms or leave proofs open (comments are ignored)
+    bad = banned_tokens()
+    if bad:
+        broken.append({'file': 'coq/*.v', 'line': 0, 'error': 'forbidden declaration(s) in the development: %s' % ', '.join(bad[:10])})
     assumptions = {}
     for pf in prop_files:
         if vo_fresh(pf + 'o', ctx['deps'], memo):
